@@ -111,9 +111,14 @@ def one_run(c, rnd, rid, spec):
             kk = k % nb
             pw = "pwA"
             entries0 = []
+            # stored as well as compressed streams, CTR as well as CBC: what a wrong key makes of a STORED CTR stream is
+            # plain garbage with no decompressor or padding to object (fix 66ed01cc: the solid iterator took the bogus chunk
+            # length running off the end for the end of the stream, and the rewrite went through without the block's entries)
+            comp = rnd.choice([[], ["--store"], ["--store"], ["--deflate=6"]])
+            ciph = rnd.choice([["--aes", "ctr"], ["--aes", "ctr"], ["--camellia", "ctr"], ["--aes", "cbc"]])
             for i, g in enumerate(groups):
                 p_i = "pwB" if (fkind == "wrongpw" and i == kk) else "pwA"
-                pna("create", "s%d.pna" % i, "--overwrite", "--solid", "--password", p_i, "--aes", "ctr", "--pbkdf2", "r=1", *g)
+                pna("create", "s%d.pna" % i, "--overwrite", "--solid", "--password", p_i, *ciph, "--pbkdf2", "r=1", *comp, *g)
                 entries0 += U.entries_of(cli.dump([sb.path("s%d.pna" % i)], password=p_i)[0])
             pna("concat", "ar/x.pna", *["s%d.pna" % i for i in range(nb)])
             item_k = sum(len(g) for g in groups[:kk])          # flat index of the first entry of block kk
